@@ -46,6 +46,7 @@ structure Cfg where
   sha3 : Bool := false             -- Model.SevmCalls: SHA3 is followed (else stuck)
   keccak : List Nat → Nat := Keccak.keccak256   -- the hash of concrete data (`sha3_hash`)
   create : Bool := false           -- Model.SevmCalls: CREATE is followed (else stuck)
+  hsto : Bool := false             -- Model.SevmCalls: SLOAD / SSTORE at mapping / dynamic-array locations are followed (else stuck)
   allocBase : Nat := 0xaaaa0001    -- `magic_address + new_address_offset`: attempt `n` (from 1) gets `allocBase + n`
 
 /-- the symbolic transaction: what CALLER, CALLVALUE, … push, and the calldata read as 32-byte words -/
